@@ -32,11 +32,14 @@ MAP = [
     (r"decode/bds/bds05\.rs$", ["C13", "C03", "C08", "C01", "C07"]),
     (r"decode/bds/.*\.rs$", ["C03", "C08", "C01", "C07"]),
     (r"jet1090/src/dedup\.rs$", ["C10"]),
-    (r"decode1090/src/main\.rs$", ["C10"]),
+    (r"decode1090/src/main\.rs$", ["C10", "C06", "C07"]),
     (r"jet1090/src/filters\.rs$", ["C11"]),
     (r"jet1090/src/snapshot\.rs$", ["C12"]),
     (r"jet1090/src/source\.rs$", ["C16"]),
-    (r"jet1090/src/(main|table|tui)\.rs$", ["C17", "C12"]),
+    (r"jet1090/src/main\.rs$", ["C06", "C11", "C10", "C12", "C07", "C17"]),
+    (r"jet1090/src/web\.rs$", ["C12"]),
+    (r"python/src/lib\.rs$", ["C06"]),
+    (r"jet1090/src/(table|tui)\.rs$", ["C17", "C12"]),
 ]
 
 
